@@ -574,12 +574,23 @@ func builtinUsePackage(env *LEnv, args *LVal) *LVal {
 }
 
 func builtinExport(env *LEnv, args *LVal) *LVal {
+	return exportList(env, args, 0)
+}
+
+// exportList walks nested lists of names.  The nesting is bounded: a list that
+// contains itself would otherwise recurse until the goroutine stack overflows.
+func exportList(env *LEnv, args *LVal, depth int) *LVal {
+	if depth > cycleGuardDepth {
+		return env.Errorf("argument lists are nested too deeply (or contain themselves)")
+	}
 	for _, arg := range args.Cells {
 		switch arg.Type {
 		case LSymbol, LString:
 			env.Runtime.Package.Exports(arg.Str)
 		case LSExpr:
-			builtinExport(env, arg)
+			if lerr := exportList(env, arg, depth+1); lerr.Type == LError {
+				return lerr
+			}
 		default:
 			return env.Errorf("argument is not a symbol, a string, or a list of valid types: %v", arg.Type)
 		}
